@@ -756,3 +756,61 @@ Proof.
     destruct (Mirror.step s o) as [[s1 r1]|] eqn:Es; [|discriminate].
     apply IH; [|exact Ht]. eapply rb_step; eassumption.
 Qed.
+
+(** checkers over the two committed-header stores (all pairs of entries of one height) *)
+Definition hash_bindsb (s1 s2 : kstate) : bool :=
+  forallb (fun e1 : N * (hdr * cproof) => forallb (fun e2 : N * (hdr * cproof) =>
+    negb (fst e1 =? fst e2) || negb (bytes_eqb (hd_hash (fst (snd e1))) (hd_hash (fst (snd e2)))) ||
+    valset_equal (hd_next (fst (snd e1))) (hd_next (fst (snd e2)))) (st_hdrs s2)) (st_hdrs s1).
+
+Lemma hash_bindsb_ok s1 s2 : hash_bindsb s1 s2 = true -> hash_binds_next s1 s2.
+Proof.
+  unfold hash_bindsb, hash_binds_next. rewrite forallb_forall. intros H h x1 cp1 x2 cp2 I1 I2 _ _ Eh.
+  specialize (H _ I1). rewrite forallb_forall in H. specialize (H _ I2). cbn [fst snd] in H.
+  rewrite N.eqb_refl, Eh, bytes_eqb_refl in H. exact H.
+Qed.
+
+Definition common_heightsb (f : N -> bool) (s1 s2 : kstate) : bool :=
+  forallb (fun e1 : N * (hdr * cproof) => forallb (fun e2 : N * (hdr * cproof) =>
+    negb (fst e1 =? fst e2) || f (fst e1)) (st_hdrs s2)) (st_hdrs s1).
+
+Lemma common_heightsb_ok f s1 s2 : common_heightsb f s1 s2 = true ->
+  forall h e1 e2, In (h, e1) (st_hdrs s1) -> In (h, e2) (st_hdrs s2) -> f h = true.
+Proof.
+  unfold common_heightsb. rewrite forallb_forall. intros H h e1 e2 I1 I2.
+  specialize (H _ I1). rewrite forallb_forall in H. specialize (H _ I2). cbn [fst] in H.
+  rewrite N.eqb_refl in H. exact H.
+Qed.
+
+Definition hyps_allb (ih : N) (ivs : valset) (s1 : kstate) (V : list sigd) (B : N -> list N) (h : N) : bool :=
+  byz_boundb (chain_vals ih ivs (st_hdrs s1) h) (B h) && a1mb (chain_vals ih ivs (st_hdrs s1) h) (B h) V h &&
+  a2mb (chain_vals ih ivs (st_hdrs s1) h) (B h) V h && a3mb (chain_vals ih ivs (st_hdrs s1) h) (B h) V h.
+
+Lemma hyps_allb_ok ih ivs s1 V B h : hyps_allb ih ivs s1 V B h = true ->
+  byz_bound (chain_vals ih ivs (st_hdrs s1) h) (B h) /\
+  A1m (chain_vals ih ivs (st_hdrs s1) h) (B h) V h /\
+  A2m (chain_vals ih ivs (st_hdrs s1) h) (B h) V h /\
+  A3m (chain_vals ih ivs (st_hdrs s1) h) (B h) V h.
+Proof.
+  unfold hyps_allb. rewrite !andb_true_iff. intros (((A & B1) & C) & D).
+  split; [apply byz_boundb_ok; exact A|]. split; [apply a1mb_ok; exact B1|].
+  split; [apply a2mb_ok; exact C|apply a3mb_ok; exact D].
+Qed.
+
+(** everything but A1 *)
+Definition hyps_noA1b (ih : N) (ivs : valset) (s1 : kstate) (V : list sigd) (B : N -> list N) (h : N) : bool :=
+  byz_boundb (chain_vals ih ivs (st_hdrs s1) h) (B h) &&
+  a2mb (chain_vals ih ivs (st_hdrs s1) h) (B h) V h && a3mb (chain_vals ih ivs (st_hdrs s1) h) (B h) V h.
+
+Lemma hyps_noA1b_ok ih ivs s1 V B h : hyps_noA1b ih ivs s1 V B h = true ->
+  byz_bound (chain_vals ih ivs (st_hdrs s1) h) (B h) /\
+  A2m (chain_vals ih ivs (st_hdrs s1) h) (B h) V h /\
+  A3m (chain_vals ih ivs (st_hdrs s1) h) (B h) V h.
+Proof.
+  unfold hyps_noA1b. rewrite !andb_true_iff. intros ((A & C) & D).
+  split; [apply byz_boundb_ok; exact A|]. split; [apply a2mb_ok; exact C|apply a3mb_ok; exact D].
+Qed.
+
+(** the newest entry of the committed-header store *)
+Definition top_entry (s : kstate) : N * (hdr * cproof) :=
+  match st_hdrs s with e :: _ => e | [] => (0, (mk_hdr [] false 0 [] empty_cproof empty_valset empty_valset, empty_cproof)) end.
